@@ -22,6 +22,7 @@ PROPS = ['C01', 'C03', 'C04', 'C05', 'C07', 'C12', 'C13', 'C14', 'C16', 'C17',
          'C18', 'C19']
 
 _MOD = {}
+_DUMP_DIGESTS = bool(os.environ.get('DETSIM_DUMP_DIGESTS'))
 
 
 def load_prop(prop):
@@ -37,12 +38,15 @@ def _h(*parts):
 def _new_agg():
     return {'runs': 0, 'workloads': 0, 'steps': 0, 'vtime': 0.0, 'fired': {}, 'offered': {},
             'probes': {}, 'distinct': set(), 'plans': set(), 'nontrivial_runs': 0,
-            'violations': {}, 'harness_errors': [], 'samples': [], 'audits': 0,
+            'violations': {}, 'harness_errors': [], 'samples': [], 'audits': 0, 'digests': [],
             'audit_mismatch': [], 'ops_done': 0, 'sweep_runs': 0, 'vcount': 0}
 
 
 def _absorb(agg, res, meta):
     agg['runs'] += 1
+    if _DUMP_DIGESTS:
+        agg['digests'].append((meta.get('index'), meta.get('sweep_site', 0), res['digest'],
+                               hashlib.sha1(repr(res['choices']).encode()).hexdigest()[:10]))
     agg['steps'] += res['steps']
     agg['vtime'] += res['vtime']
     agg['ops_done'] += res['ops_done']
@@ -87,6 +91,7 @@ def _merge(a, b):
         cur.extend(lst)
         cur.sort(key=lambda x: len(x['choices']))
         del cur[3:]
+    a['digests'].extend(b['digests'])
     a['harness_errors'].extend(b['harness_errors'])
     del a['harness_errors'][5:]
     a['audit_mismatch'].extend(b['audit_mismatch'])
@@ -395,6 +400,10 @@ def main(argv=None):
         print('HARNESS-ERROR %s' % harness_fail)
         rc = max(rc, 2)
 
+    if _DUMP_DIGESTS:
+        with open(os.environ['DETSIM_DUMP_DIGESTS'], 'w') as f:
+            for row in sorted(agg['digests']):
+                f.write('%s %s %s %s\n' % row)
     wall = time.monotonic() - t0
     if not args.no_evidence:
         extra = {'known_findings_seen': sorted(str(k) for k in known_hits)}
